@@ -114,6 +114,10 @@ const _: () = {
             (bytes.first() == Some(&b'/')).then_some(())
                 .ok_or_else(crate::Response::NotImplemented)?;
 
+            /* accessors of `Path` promise (percent-decoded) `str`s */
+            percent_decode_utf8(bytes).is_ok_and(|path| !path.contains('\0')).then_some(())
+                .ok_or_else(crate::Response::BadRequest)?;
+
             /*
             Strip trailing '/' **even when `bytes` is just `b"/"`**
             (then the bytes become b"" (empty bytes)).
